@@ -1047,7 +1047,22 @@ func (p *c15) Class(ci, oi any) string {
 		if obs.DirErr != "" {
 			return k + obs.DirErr
 		}
-		c15CountTags("dir(loaded)", c15FilesTags(c.Files))
+		tags := c15FilesTags(c.Files)
+		hasIgn, dot := false, false
+		for _, f := range c.Files {
+			if f.Name == ".helmignore" {
+				hasIgn = true
+			}
+			if strings.HasPrefix(f.Name, "templates/.") {
+				dot = true
+			}
+		}
+		if dot && !hasIgn {
+			tags += "+no-helmignore-with-templates-dotfile"
+		} else if dot {
+			tags += "+templates-dotfile"
+		}
+		c15CountTags("dir(loaded)", tags)
 		if obs.PkgErr != "" {
 			return k + "loaded:package-refused"
 		}
